@@ -7,6 +7,8 @@
 (*      grown one edge at a time in canonical order (each graph once)      *)
 (*   MX a fixed conflict graph whose edges are optional / test / runtime / *)
 (*      provided: what is cut does not take part in mediation              *)
+(*   MD an artifact met first below a loser and again, not nearer, below    *)
+(*      the winner: the second occurrence keeps its subtree                *)
 (*   S  scopes: root scope x two chained edges, each with declared /       *)
 (*      managed / omitted scope, optional flag, managed version            *)
 (*   S2 the same artifact reached from two roots with different scopes     *)
@@ -74,6 +76,8 @@ Tags(ph, u, rs, op, alt, d, allowed) ==
    \cup {"nearer-but-later" : i \in {i \in N : loser(i) /\ \E j \in N : wins(j, i) /\ LexLess(seq[i].path, seq[j].path)}}
    \cup {"loser-subtree-discarded" : i \in {i \in N : gone(i) /\ ~\E j \in kept : key(j) = key(i)}}
    \cup {"late-winner" : i \in {i \in N : gone(i) /\ \E j \in kept : key(j) = key(i) /\ Before(seq[i], seq[j])}}
+   \cup {"late-winner-keeps-subtree" : i \in {i \in N : gone(i) /\ \E j \in kept : key(j) = key(i) /\ Before(seq[i], seq[j]) /\ depth(i) <= depth(j)
+                                                        /\ \E k \in kept : Len(seq[k].path) > 1 /\ ParentPath(seq[k].path) = seq[j].path}}
    \cup {"mgmt-version" : i \in {i \in kept : seq[i].x.fv}}
    \cup {"mgmt-version-wins-conflict" : i \in {i \in kept : seq[i].x.fv /\ \E j \in N : key(j) = key(i) /\ seq[j].v # seq[i].v}}
    \cup {"mgmt-scope" : i \in {i \in kept : seq[i].x.fs}}
@@ -185,6 +189,25 @@ PickMX ==
                           Jar("x", "1", <<>>, <<>>), Jar("x", "2", <<>>, <<D("y", "1", e3.s, e3.o)>>),
                           Jar("y", "1", <<>>, <<>>), Jar("y", "2", <<>>, <<>>)>>),
              <<R("a", "1", s0), R("b", "1", "compile")>>)
+
+(* MD: an artifact met first (depth first) below an occurrence that loses mediation, and again - not nearer - below the  *)
+(* winner: the first occurrence goes with the loser's subtree, the second is the result and keeps what is below it       *)
+(* (seed C19-10: a walk that does not descend below an artifact it has met before at the same depth or nearer)           *)
+PickMD ==
+    /\ phase = "start"
+    /\ \E first \in {"b", "l"}, v1 \in {"1", "2"}, v2 \in {"1", "2"}, mid \in BOOLEAN, two \in BOOLEAN :
+        LET db == D("b", "1", "", "")
+            dl == D("l", "2", "", "")
+            rb == R("b", "1", "compile")
+            rl == R("l", "2", "compile")
+        IN Case("MD", Univ(<<Jar("a", "1", <<>>, IF first = "b" THEN <<db, dl>> ELSE <<dl, db>>),
+                             Jar("b", "1", <<>>, <<D("l", "1", "", "")>>),
+                             Jar("l", "1", <<>>, <<D("x", v1, "", "")>>),
+                             Jar("l", "2", <<>>, IF mid THEN <<D("p", "1", "", "")>> ELSE <<D("x", v2, "", "")>>),
+                             Jar("p", "1", <<>>, <<D("x", v2, "", "")>>),
+                             Jar("x", "1", <<>>, <<D("w", "1", "", "")>>), Jar("x", "2", <<>>, <<D("z", "1", "", "")>>),
+                             Jar("w", "1", <<>>, <<>>), Jar("z", "1", <<>>, <<>>)>>),
+                IF two THEN (IF first = "b" THEN <<rb, rl>> ELSE <<rl, rb>>) ELSE <<R("a", "1", "compile")>>)
 
 ---------------------------------------------------------------------------
 (* G: where the managed entry for y comes from and who declares the dependency on y *)
@@ -298,7 +321,7 @@ PickT ==
 
 ---------------------------------------------------------------------------
 Init == phase = "start" /\ U = <<>> /\ roots = <<>> /\ res = <<>>
-Next == PickM \/ GrowM \/ PickMX \/ PickS \/ PickS2 \/ PickG \/ PickGBad \/ PickGB \/ PickGC \/ PickGK \/ PickK \/ PickR \/ PickT
+Next == PickM \/ GrowM \/ PickMX \/ PickMD \/ PickS \/ PickS2 \/ PickG \/ PickGBad \/ PickGB \/ PickGC \/ PickGK \/ PickK \/ PickR \/ PickT
 Spec == Init /\ [][Next]_vars
 
 ---------------------------------------------------------------------------
